@@ -644,3 +644,82 @@ MUTANTS += [
  dict(id="C09-answer-meta-swapped-with-sender", props=["C09"], expect={"C09": r"answers#"},
       edits=[(WST, "                let meta = OutMessageMeta {\n                    out_message_consumer_id: answer_receiver.consumer_id,\n                    connection_id: answer_receiver.connection_id,", "                let meta = OutMessageMeta {\n                    out_message_consumer_id: request_sender_meta.out_message_consumer_id,\n                    connection_id: answer_receiver.connection_id,")]),
 ]
+
+MUTANTS += [
+ dict(id="C20-rename-before-flush", props=["C20"], expect={"C20": r"export#order"},
+      edits=[(SWR, """        if let Some(mut w) = opt_scrape_export_writer.take() {
+            if let Err(err) = w.flush() {""", """        if let Some(mut w) = opt_scrape_export_writer.take() {
+            let _ = ::std::fs::rename(config.scrape_exports.tmp_path(), &config.scrape_exports.path);
+            if let Err(err) = w.flush() {""")]),
+ dict(id="C20-write-to-final-path", props=["C20"], expect={"C20": r"export#(tmp_target|rename_args|order)"},
+      edits=[(SWR, "            match File::create(config.scrape_exports.tmp_path()) {", "            match File::create(&config.scrape_exports.path) {")]),
+ dict(id="C20-rename-even-if-flush-fails", props=["C20"], expect={"C20": r"export#order"},
+      edits=[(SWR, """            } else {
+                drop(w);
+
+                if let Err(err) = ::std::fs::rename(""", """            }
+            {
+                drop(w);
+
+                if let Err(err) = ::std::fs::rename(""")]),
+ dict(id="C20-removed-uses-request-id-again", props=["C20"], expect={"C20": r"tally#announce#(removed_id_is_stored_id|message_table)"},
+      edits=[(SWR, "                            .try_send(StatisticsMessage::PeerRemoved(removed_peer.peer_id))", "                            .try_send(StatisticsMessage::PeerRemoved(if removed_peer.is_seeder { removed_peer.peer_id } else { request.peer_id }))")]),
+ dict(id="C20-id-change-only-adds", props=["C20"], expect={"C20": r"tally#announce#message_table"},
+      edits=[(SWR, """                        if let Some(removed_peer_id) = opt_removed_peer_id {
+                            statistics_sender
+                                .try_send(StatisticsMessage::PeerRemoved(removed_peer_id))
+                                .expect("statistics channel should be unbounded");
+                        }
+""", """                        let _ = opt_removed_peer_id;
+""")]),
+ dict(id="C20-export-leechers-from-seeders", props=["C20"], expect={"C20": r"content#line"},
+      edits=[(SWR, "                            seeders = num_seeders,\n                            leechers = num_leechers", "                            seeders = num_seeders,\n                            leechers = num_seeders")]),
+ dict(id="C20-export-empty-torrents-too", props=["C20"], expect={"C20": r"content#only_with_peers"},
+      edits=[(SWR, """                if num_peers != 0 {
+                    if let Some(histogram) = opt_histogram.as_mut() {""", """                {
+                    if let Some(histogram) = opt_histogram.as_mut() {""")]),
+ dict(id="C20-totals-stored-before-ipv6-pass", props=["C20"], expect={"C20": r"totals#udp#stored"},
+      edits=[(SWR, """        let ipv6 = self.ipv6.clean_and_get_statistics(
+            config,
+            &mut statistics_messages,
+            &mut cache,
+            mode,
+            seconds_since_server_start,
+            &mut opt_scrape_export_writer,
+        );
+
+        if config.statistics.active() {
+            statistics.ipv4.torrents.store(ipv4.0, Ordering::Relaxed);""", """        if config.statistics.active() {
+            statistics.ipv4.torrents.store(ipv4.0, Ordering::Relaxed);
+        }
+        let ipv6 = self.ipv6.clean_and_get_statistics(
+            config,
+            &mut statistics_messages,
+            &mut cache,
+            mode,
+            seconds_since_server_start,
+            &mut opt_scrape_export_writer,
+        );
+
+        if config.statistics.active() {""")]),
+ dict(id="C20-cleaner-forgets-peer-removed-large", props=["C20"], expect={"C20": r"tally#clean#LargePeerMap"},
+      edits=[(SWR, """                if config.statistics.peer_clients {
+                    statistics_messages.push(StatisticsMessage::PeerRemoved(peer.peer_id));
+                }
+            }
+
+            keep
+        });
+
+        if !self.peers.is_empty() {""", """                if config.statistics.peer_clients && peer.is_seeder {
+                    statistics_messages.push(StatisticsMessage::PeerRemoved(peer.peer_id));
+                }
+            }
+
+            keep
+        });
+
+        if !self.peers.is_empty() {""")]),
+ dict(id="C20-worker-removed-adds", props=["C20"], expect={"C20": r"tally#worker_arithmetic"},
+      edits=[(US+"workers/statistics/mod.rs", "                            *count -= 1;\n\n                            if *count == 0 {", "                            *count += 1;\n\n                            if *count == 0 {")]),
+]
